@@ -63,9 +63,12 @@ class Layout:
                            'owner': owner, 'fname': fname})
 
     def locate(self, off):
-        for it in self.items:
-            if it['off'] <= off < it['off'] + max(it['len'], 1):
-                return '%s(%s,%s) @%d+%d' % (it['path'], it['kind'], it['fkind'], it['off'], it['len'])
+        # an item that really occupies the byte wins; an empty item (zero-length string / list body) sitting at the
+        # same offset as the next field is only named when nothing else covers the offset
+        for empty in (False, True):
+            for it in self.items:
+                if (it['len'] == 0) == empty and it['off'] <= off < it['off'] + max(it['len'], 1):
+                    return '%s(%s,%s) @%d+%d' % (it['path'], it['kind'], it['fkind'], it['off'], it['len'])
         return 'past end / unattributed offset %d' % off
 
 
